@@ -57,6 +57,11 @@ func (s *Server) Hover(ctx context.Context, params *protocol.HoverParams) (*prot
 
 	if resolved := s.getWorkspaceResolved(params.TextDocument.URI); resolved != nil {
 		allTransactions = resolved.AllTransactions()
+		// a document that is not part of the workspace tree still counts itself
+		path := uriToPath(params.TextDocument.URI)
+		if _, included := resolved.Files[path]; !included && resolved.PrimaryPath != "" && resolved.PrimaryPath != path {
+			allTransactions = append(allTransactions, journal.Transactions...)
+		}
 		balances = analyzer.CalculateAccountBalancesFromTransactions(allTransactions)
 	} else {
 		allTransactions = journal.Transactions
